@@ -36,6 +36,8 @@ class Parent(HasTraits):
     _t = Int(6)
     pp_t = Int(66)
     nl = Int(7)
+    #: a target name that only a wildcard declares
+    opt_ = Int(8)
 
 
 class Child(HasTraits):
@@ -48,6 +50,7 @@ class Child(HasTraits):
     r = DelegatesTo("parent", prefix="*")
     t = DelegatesTo("parent", prefix="_*")      # one-character prefix
     nl = DelegatesTo("parent", listenable=False)
+    opt_a = DelegatesTo("parent", listenable=False)
 
 
 class PChild(HasTraits):
@@ -59,6 +62,7 @@ class PChild(HasTraits):
     r = PrototypedFrom("parent", prefix="*")
     t = PrototypedFrom("parent", prefix="_*")
     nl = PrototypedFrom("parent", listenable=False)
+    opt_a = PrototypedFrom("parent", listenable=False)
 
 
 class PChild2(HasTraits):
@@ -474,10 +478,10 @@ def cont_canon(w):
 
 
 ALL_ATTRS = {"x": "x", "xx": "y", "q": "pre_q", "r": "pp_r", "t": "_t",
-             "nl": "nl"}
+             "nl": "nl", "opt_a": "opt_a"}
 #: listenable=False: values mirror the target, forwarding of notifications
 #: is not promised
-NOLISTEN = {"nl"}
+NOLISTEN = {"nl", "opt_a"}
 ATTRS = dict(ALL_ATTRS)
 VALS = [5, 6, "bad"]
 
@@ -513,6 +517,9 @@ class World:
         self.cur = 0
         self.P = [{"x": 1, "y": 2, "pre_q": 3, "pp_r": 4, "_t": 6,
                    "pp_t": 66, "nl": 7} for _ in range(2)]
+        if not kind.startswith("proto2"):
+            for m in self.P:
+                m["opt_a"] = 8
         self.L = {}
         #: attributes whose handlers are attached right now ("proto2late":
         #: the handlers of x come and go during the history)
@@ -577,6 +584,8 @@ def menu(kind):
             evs.append(("set_child", a, v))
         if kind.startswith("proto"):
             evs.append(("del_child", a))
+        # asking about the attribute changes nothing
+        evs.append(("introspect", a))
     for i in (0, 1):
         for a in attrs:
             for v in VALS[:2]:
@@ -697,6 +706,27 @@ def step(ctx, w, ev, hist, check):
             c.parent = w.parents[ev[1]]
         w.cur = ev[1]
         ctx.nontriv((w.kind, "swap", ev[1], repr(canon(w))))
+    elif k == "introspect":
+        a = ev[1]
+        try:
+            c.base_trait(a)
+            c.trait(a)
+            c.validate_trait(a, 5)
+            try:
+                c.validate_trait(a, "bad")
+                bad("introspect-accepts-invalid", "validate_trait accepted "
+                    "an invalid value for %s" % a)
+            except TraitError:
+                pass
+            c.trait_names()
+            c.traits()
+            c.trait_get(a)
+        except Exception as e:
+            bad("introspect-raises", "introspection of %s raised %r"
+                % (a, e))
+        if any(w.calls.values()):
+            bad("introspect-notified", "introspection of %s called handlers"
+                % a)
     elif k == "hook":
         w.hook(c, [ev[1]])
         w.unhooked.discard(ev[1])
